@@ -16,7 +16,7 @@ def make_strategy(spec, expected_steps=3000):
     if kind == "pct":
         return S.PCT(random.Random(spec["seed"]), spec.get("d", 3), spec.get("len", expected_steps))
     if kind == "forced":
-        return S.Forced({int(k): v for k, v in spec["switches"].items()})
+        return S.Forced({int(k): v for k, v in spec["switches"].items()}, spec.get("prefer") or ())
     raise ValueError(kind)
 
 
